@@ -219,7 +219,7 @@ theorem BlockOn.wake_not_lost (w : World) (c : TCtl) (f : Nat) :
     (w.runOp c (.wakeQ f) = w.wakeStage c f false false) ∧
     (c.stage = 0 → w.wakeStage c f false false = (do
       let m ← w.getMutex (w.futs.getD f {}).slotMutex
-      (w.setStage 2).branch (w.futs.getD f {}).slotMutex .opaque (block := m.lock.isSome))) ∧
+      (w.setStage 2).branch (w.futs.getD f {}).slotMutex .opaque (block := m.lock.isSome) (wait := true))) ∧
     (c.held.lookup f = none → w.runOp c (.wakeH f) = pure (w.complete .unit)) ∧
     (∀ a n, c.held.lookup f = some (a, n) →
       (c.stage = 0 → w.runOp c (.wakeH f) = (w.setStage 1).branch n .opaque) ∧
@@ -302,12 +302,12 @@ theorem BlockOn.returns_output (w w' : World) (c : TCtl) (f mode : Nat)
           (w1.setStage 41).branch (w.arcInfo (w.futs.getD f {}).arc).obj .arcDec = .ok w')) ∧
     (c.stage = 40 → ∃ w1, w.wakerDrop (w.futs.getD f {}).arc = .ok w1 ∧
       ((World.slotMode mode = true ∧ ∃ m, w1.getMutex (w.futs.getD f {}).slotMutex = .ok m ∧
-          (w1.setStage 45).branch (w.futs.getD f {}).slotMutex .opaque (block := m.lock.isSome)
+          (w1.setStage 45).branch (w.futs.getD f {}).slotMutex .opaque (block := m.lock.isSome) (wait := true)
             = .ok w') ∨
        (World.slotMode mode = false ∧ (mode = 3 ∨ mode = 4) ∧ w' = w1.complete (.val 7)) ∨
        (World.slotMode mode = false ∧ mode ≠ 3 ∧ mode ≠ 4 ∧
           ∃ m, w1.getMutex (w.futs.getD f {}).awMutex = .ok m ∧
-          (w1.setStage 44).branch (w.futs.getD f {}).awMutex .opaque (block := m.lock.isSome)
+          (w1.setStage 44).branch (w.futs.getD f {}).awMutex .opaque (block := m.lock.isSome) (wait := true)
             = .ok w'))) ∧
     (c.stage = 41 → ∃ w1, w.wakerDrop (w.futs.getD f {}).arc = .ok w1 ∧
       w' = w1.complete (.val 0)) ∧
